@@ -728,7 +728,7 @@ def depth_of(typ, tier):
     n = len(spec_of(typ).ops)
     if tier == 'thorough':
         return 5 if n <= 8 else 4
-    return 4 if n <= 7 else 3
+    return 4 if n <= 8 else 3
 
 
 def _task_a(arg):
@@ -764,8 +764,8 @@ def _task_a(arg):
 
 
 # ------------------------------------------------------------ (b) lifetime
-CAPS = {'quick': dict(depth=4, proxies=3, creates=2),
-        'thorough': dict(depth=6, proxies=4, creates=3)}
+CAPS = {'quick': dict(depth=6, proxies=4, creates=3),
+        'thorough': dict(depth=8, proxies=5, creates=3)}
 
 
 def _fork_copy(p, env):
@@ -1322,39 +1322,56 @@ def _task_c(arg):
 
 
 def c_configs(tier):
+    """(config, preemption bound, execution cap).  Bound 0 already contains
+    every order in which the two clients' requests can reach the server
+    (switches at blocking points are free); bound 1 / 2 adds that many
+    preemptions anywhere, including between source lines of
+    Server.serve_client/create/incref/decref."""
     thorough = tier == 'thorough'
-    bound = 2 if thorough else 1
     out = []
     for typ in ('list', 'dict', 'Value'):
         ops = CTYPES[typ]['ops']
         one = [[op] for op in ops]
+        k = 0
         for i, a in enumerate(one):
             for b in one[i:]:
-                for mode in ('threads', 'procs'):
+                modes = ('threads', 'procs') if thorough else \
+                    (('threads', 'procs')[k % 2],)
+                k += 1
+                for mode in modes:
                     out.append((dict(kind='lin', type=typ, seqs=[a, b],
-                                     mode=mode, warm=True), bound, None))
-        # cold: the connections are made inside the explored phase
+                                     mode=mode, warm=True), 1, None))
+        if thorough and typ == 'Value':
+            for i, a in enumerate(one):
+                for b in one[i:]:
+                    out.append((dict(kind='lin', type=typ, seqs=[a, b],
+                                     mode='threads', warm=True), 2, 150000))
+        # cold: the first call of each client (accept_connection, a new
+        # serving thread) is inside the explored phase
         out.append((dict(kind='lin', type=typ, seqs=[one[0], one[1]],
-                         mode='threads', warm=False), 1, None))
-        two = [[x, y] for x in ops for y in ops]
+                         mode='threads', warm=False),
+                    1 if thorough else 0, 60000))
+        two = [[x, y] for x in ops for y in ops if x != y]
         if thorough:
-            pick2 = two
-            pick1 = one
-        else:
-            pick2 = [two[1], two[4 % len(two)]]
-            pick1 = one[:2]
-        for a in pick2:
-            for b in pick1:
-                out.append((dict(kind='lin', type=typ, seqs=[a, b],
-                                 mode='procs', warm=True), 1, None))
-        if thorough:
-            for a in two[:4]:
-                for b in two[:4]:
+            for a in two[:8]:
+                for b in one[:2]:
                     out.append((dict(kind='lin', type=typ, seqs=[a, b],
-                                     mode='threads', warm=True), 1, None))
-    for sc in ('drop||copy', 'drop||drop', 'copy||copy', 'call||drop',
-               'create||drop', 'create||create'):
-        out.append((dict(kind='life', scenario=sc), bound, None))
+                                     mode='procs', warm=True), 1, None))
+            for a in two[:2]:
+                for b in two[1:3]:
+                    out.append((dict(kind='lin', type=typ, seqs=[a, b],
+                                     mode='threads', warm=True), 0, None))
+        else:
+            for a, b in ((two[0], one[1]), (two[3], one[0])):
+                out.append((dict(kind='lin', type=typ, seqs=[a, b],
+                                 mode='procs', warm=True), 0, None))
+    for sc, b in (('drop||copy', 1), ('drop||drop', 1), ('copy||copy', 1),
+                  ('call||drop', 1), ('create||drop', 0),
+                  ('create||create', 0)):
+        if thorough and b == 0:
+            out.append((dict(kind='life', scenario=sc), 1, 150000))
+        else:
+            out.append((dict(kind='life', scenario=sc), b, None))
     return out
 
 
